@@ -67,7 +67,7 @@ CHECKS = {
   design="DESIGN.md §5 C08, Appendix C"),
  "C11": dict(
   technique="runtime monitor: reference-model oracle (structural equality on read-back values) + relational-law checker over observed results + sentinel-under-operands balance check",
-  text="All ordered pairs of 334 small values (27 leaves of 14 kinds and every width<=2 pair/list/concatenation over 9 bases) exhaustively, plus random trees (depth<=3 quick, 5 thorough) each paired with an identical copy, a reshaped equivalent, a one-point mutant or an unrelated tree, built in four construction orders, every eighth case a value that holds one shared sub-value two or three times; Equal and NotEqual are executed on both stores with a sentinel operand underneath and compared with an independent structural equality; symmetry, negation and transitivity are checked on the observed answers.",
+  text="All ordered pairs of 338 small values (31 leaves of 14 kinds, among them numbers that agree in their first seven digits or differ in the last bit and every width<=2 pair/list/concatenation over 9 bases) exhaustively, plus random trees (depth<=3 quick, 5 thorough) each paired with an identical copy, a reshaped equivalent, a one-point mutant or an unrelated tree, built in four construction orders, every eighth case a value that holds one shared sub-value two or three times; Equal and NotEqual are executed on both stores with a sentinel operand underneath and compared with an independent structural equality; symmetry, negation and transitivity are checked on the observed answers.",
   note="trusts the reference equality incl. its list/concatenation flattening rule; NaN and slices are outside the generator",
   design="DESIGN.md §5 C11"),
  "C12": dict(
